@@ -1825,6 +1825,11 @@ where
                 }
             }
 
+            // from_str_radix would accept a sign.
+            if !s.bytes().all(|b| b.is_ascii_hexdigit()) {
+                self.input = orig_input;
+                return None;
+            }
             match u32::from_str_radix(&s, 16) {
                 Ok(u) => {
                     if u > 0x10_FFFF {
@@ -1851,6 +1856,10 @@ where
                     return None;
                 }
             }
+            if !s.bytes().all(|b| b.is_ascii_hexdigit()) {
+                self.input = orig_input;
+                return None;
+            }
             match u16::from_str_radix(&s, 16) {
                 Ok(u) => {
                     if (0xD800..=0xDBFF).contains(&u) {
@@ -1873,6 +1882,9 @@ where
                                 s.push(c);
                             }
 
+                            if !s.bytes().all(|b| b.is_ascii_hexdigit()) {
+                                return None;
+                            }
                             let uu = u16::from_str_radix(&s, 16).ok()?;
                             let ch = char::decode_utf16([u, uu]).next()?.ok()?;
                             Some(u32::from(ch))
